@@ -110,7 +110,7 @@ def c14Clauses (dst src res : Db) : List String :=
           [if r.isGroup then "group-not-newest-version" else "entry-not-newest-version" ++ sfx])
       -- … with the rest of its time data (expiry flag and date, usage count, creation and access times)
       ++ (if r.times.other == w.times.other then [] else
-          [if r.isGroup then "group-expiry-or-usage-not-from-newest-version" else "entry-expiry-or-usage-not-from-newest-version"])
+          [if r.isGroup then "group-expiry-or-usage-not-from-newest-version" else "entry-expiry-or-usage-not-from-newest-version" ++ sfx])
       -- placement (entries; C14 makes no demand on where a group present on both sides ends up): last mover
       -- wins unless the source's place lies under a group the destination deleted
       ++ (if isRoot || r.isGroup then [] else
